@@ -1103,6 +1103,9 @@ func C15(run *report.Run) {
 		adjacentC15(run, acc, 2, 1500)
 		adjacentC15(run, acc, 3, 1500)
 		adjacentC15(run, acc, 4, 1500)
+		subtreesBeforeSharedC15(run, acc, 2, 1500)
+		subtreesBeforeSharedC15(run, acc, 3, 1500)
+		subtreesBeforeSharedC15(run, acc, 4, 1500)
 		ruler := []uint8{0, 1, 0, 2, 0, 1, 0, 3, 0, 1, 0, 2, 0, 1, 0}
 		wideC15With(run, acc, 1, 2, ruler, 5)
 		wideC15With(run, acc, 3, 2, ruler, 5)
